@@ -150,6 +150,14 @@ class Program:
 
     def __init__(self, mir_path, src_root, wanted):
         self.raw = P.parse_file(mir_path, wanted)
+        # one-line constant items: `const NAME: u64 = const 123_u64;` (no module path in the dump)
+        self.simple_consts = {}
+        with open(mir_path) as fh:
+            for ln in fh:
+                if ln.startswith("const ") and ln.rstrip().endswith(";"):
+                    m = re.match(r"^const (\w+): [\w:<>&\[\]; ]+ = const (.+);$", ln.rstrip())
+                    if m:
+                        self.simple_consts.setdefault(m.group(1), set()).add(m.group(2))
         self.enums = scan_enums(src_root)
         self.built = {}
         self.by_method = {}
@@ -334,6 +342,15 @@ class Interp:
             if len(cands) >= 1:
                 return self.call(cands[0], [])
             raise Unsupported("promoted constant not found: " + t)
+        if ("const " + t) in self.prog.raw:                      # a constant item of the crate with a MIR body
+            return self.call("const " + t, [])
+        last = t.split("::")[-1]
+        if re.match(r"^[A-Z][A-Z0-9_]*$", last) and len(self.prog.simple_consts.get(last, ())) == 1:
+            return self.const(next(iter(self.prog.simple_consts[last])))
+        if re.match(r"^[\w:]+::[A-Z][A-Z0-9_]*$", t):
+            cands = [n for n in self.prog.raw if n.startswith("const ") and "promoted" not in n and t.endswith("::" + n[6:])]
+            if len(cands) == 1:
+                return self.call(cands[0], [])
         m = re.match(r"^([\w:<>]+)::(\w+)$", t)
         if m:
             en = strip_generics(m.group(1)).split("::")[-1]
